@@ -80,7 +80,7 @@ def run(tier, seed):
     for kind, keys in key_columns(rng, tier):
         keys = [E() if k is None else k for k in keys]
         rows = [[k] for k in keys]
-        for lv in lookups_for(rng, kind, keys):
+        for lv in lookups_for(rng, kind, keys) + ([E()] if rng.random() < 0.3 else []):        # now and then the lookup value is a blank cell
             if kind != 'text' and any(type(k) not in (int, float) for k in keys):
                 # exact match in a column with cells of other kinds in between: the position is the position in the range
                 pos = [i + 1 for i, k in enumerate(keys) if type(k) in (int, float) and k == lv]
@@ -101,6 +101,8 @@ def run(tier, seed):
                 for mm in (0, -1, 1):
                     cases_x.append(('lk xmatch %s %s I%d I%d' % (core.enc(lv), core.enc(rows), mm, sm), core.outcome(inst._xmatch, lv, rows, mm, sm),
                                     {'fn': 'XMATCH', 'lookup': repr(lv), 'keys': repr(keys), 'match_mode': mm, 'search_mode': sm}))
+                if type(lv) is E:
+                    continue          # a blank lookup value: the property fixes nothing (the model follows the blank's own comparison methods)
                 if keys == sorted(set(keys), reverse=sm == -2) if all(type(k) is str for k in keys) or all(type(k) in (int, float) for k in keys) else False:
                     want = keys.index(lv) + 1 if lv in keys else '#N/A'
                     got = core.outcome(inst._xmatch, lv, rows, 0, sm)
